@@ -19,6 +19,9 @@ func main() {
 	debug.SetGCPercent(1000) // checks allocate many short-lived codecs; trade memory for GC time
 	id := os.Args[1]
 	args := os.Args[2:]
+	if props.GovsIDs[id] {
+		props.ExecGovs(os.Args[1:])
+	}
 	f, ok := props.Registry[id]
 	if !ok {
 		core.Infra("unknown check %q", id)
